@@ -26,7 +26,7 @@ COMBOS = (
     [("am", e, {}) for e in ("tsp", "cvrp", "cvrptw", "sdvrp", "svrp", "op", "pctsp", "spctsp", "pdp", "mtsp", "mtvrp", "mdcpdp", "smtwtp")]
     + [("am_instnorm", "tsp", {}), ("am_instnorm", "cvrp", {}), ("am_layernorm", "cvrp", {}), ("ptrnet", "tsp", {}), ("ham", "pdp", {}),
        ("symnco", "tsp", {}), ("symnco", "cvrp", {}), ("mdam", "tsp", {}), ("mdam", "cvrp", {}), ("mdam", "op", {}), ("mdam", "pctsp", {}),
-       ("matnet", "atsp", {}), ("polynet", "tsp", {}), ("polynet", "cvrp", {}), ("nar", "tsp", {}), ("nar", "cvrp", {}), ("nar", "op", {}),
+       ("matnet", "atsp", {}), ("polynet", "tsp", {}), ("polynet", "cvrp", {}), ("nar", "tsp", {}), ("nar", "cvrp", {}), ("nar", "op", {}), ("am_simple_sdpa", "cvrp", {}), ("am_simple_sdpa", "tsp", {}), ("am_simple_sdpa", "pctsp", {}),
        ("l2d", "fjsp", dict(jobs=3, mas=2, min_ops=1, max_ops=3, mask_no_ops=True)), ("l2d", "jssp", dict(jobs=3, mas=3, one2one=True, mask_no_ops=True))]
 )
 
